@@ -18,24 +18,53 @@ def router_cls(p: Program) -> ClassInfo:
     return p.cls("indi.routing.router.Router")
 
 
+_CURRENT_IT = None
+
+
 class World:
+    """Abstract router universe.  The router object is built by abstractly running Router.__init__ and the
+    registration functions (so every field the constructor sets exists); policies are then written into the
+    constructed policy table."""
+
     def __init__(self, p: Program, n_clients=2, n_devices=2, policies: Dict[int, Dict[Optional[str], str]] = None, registered=None):
         self.p = p
+        it = _CURRENT_IT
+        if it is None:
+            raise Undecided("World must be built inside run_router")
         self.cbase = p.cls("indi.routing.client.Client")
         self.dbase = p.cls("indi.routing.device.Device")
         self.clients = [Obj(self.cbase, {}, label=f"client{i}") for i in range(n_clients)]
         self.devices = [Obj(self.dbase, {}, label=f"device{i}") for i in range(n_devices)]
         reg = list(range(n_clients)) if registered is None else registered
-        self.router = Obj(router_cls(p), {}, label="router")
-        self.router.attrs["clients"] = Lst([self.clients[i] for i in reg], label="router.clients")
-        self.router.attrs["devices"] = Lst(list(self.devices), label="router.devices")
-        br = Dct(label="router.blob_routing")
+        rc = router_cls(p)
+        self.router = Obj(rc, {}, label="router")
+        saved = dict(it.opts)
+        it.opts["inline"] = lambda fi, node: fi.cls is rc
+        try:
+            init = rc.find_method("__init__")
+            if init is not None:
+                it.run_function(Fn(init, self.router), [], {})
+            for d in self.devices:
+                it.run_function(Fn(rc.find_method("register_device"), self.router), [d], {})
+            for i in reg:
+                it.run_function(Fn(rc.find_method("register_client"), self.router), [self.clients[i]], {})
+        finally:
+            it.opts.clear()
+            it.opts.update(saved)
+        del it.events[:]
+        for k in ("clients", "devices", "blob_routing"):
+            if k not in self.router.attrs:
+                raise Undecided(f"Router.__init__ does not create '{k}'")
+        self.router.attrs["clients"].label = "router.clients"
+        self.router.attrs["devices"].label = "router.devices"
+        br = self.router.attrs["blob_routing"]
         for i in reg:
-            d = Dct()
+            d = br.get(self.clients[i])
+            if d is None:
+                d = Dct()
+                br.set(self.clients[i], d)
             for dev, pol in (policies or {}).get(i, {}).items():
                 d.set(Const(dev), Const(pol))
-            br.set(self.clients[i], d)
-        self.router.attrs["blob_routing"] = br
 
     def policy_snapshot(self):
         out = {}
@@ -79,14 +108,27 @@ def run_router(p: Program, world_factory, method: str, args_factory, inline_name
     worlds = []
 
     def run(it: Interp):
-        w = world_factory()
+        global _CURRENT_IT
+        _CURRENT_IT = it
+        try:
+            w = world_factory()
+        finally:
+            _CURRENT_IT = None
         worlds.append(w)
         it.world = w
-        args, kwargs = args_factory(w)
-        return it.run_function(Fn(f, w.router), args, kwargs)
+        calls = args_factory(w)
+        if isinstance(calls, tuple):
+            calls = [calls]
+        r = None
+        it.call_marks = []
+        for args, kwargs in calls:
+            it.call_marks.append(len(it.events))
+            r = it.run_function(Fn(f, w.router), args, kwargs)
+        return r
 
     def pol(fi, node):
-        return fi.cls is router_cls(p) and fi.name in inline_names
+        # the router's own helper methods are part of the function under analysis
+        return fi.cls is router_cls(p) and fi is not f
 
     paths = explore(p, run, {"inline": pol, "strict_keys": True})
     for pa in paths:
